@@ -3,6 +3,7 @@ package eval
 import (
 	"errors"
 	"fmt"
+	"reflect"
 	"strconv"
 	"strings"
 	"time"
@@ -311,12 +312,18 @@ func (c comparison) execute(_ *Ctx, params []Value) (Value, error) {
 }
 
 func comparisonEquals(_ *Ctx, params []Value) (Value, error) {
-	if len(params) == 2 {
-		return params[0] == params[1], nil
-	}
-
 	if len(params) < 2 {
 		return nil, errCnt2(equals, params)
+	}
+
+	for _, p := range params {
+		if !isComparable(p) {
+			return nil, ParamTypeError(modeNames[equals], "comparable", p)
+		}
+	}
+
+	if len(params) == 2 {
+		return params[0] == params[1], nil
 	}
 
 	v := params[0]
@@ -333,7 +340,18 @@ func comparisonNotEquals(_ *Ctx, params []Value) (Value, error) {
 		return nil, errCnt2(notEquals, params)
 	}
 
+	for _, p := range params {
+		if !isComparable(p) {
+			return nil, ParamTypeError(modeNames[notEquals], "comparable", p)
+		}
+	}
+
 	return params[0] != params[1], nil
+}
+
+// isComparable reports whether comparing v with == is safe (lists and sets are not comparable)
+func isComparable(v Value) bool {
+	return v == nil || reflect.TypeOf(v).Comparable()
 }
 
 func comparisonBetween(_ *Ctx, params []Value) (Value, error) {
